@@ -61,7 +61,32 @@ def factorsCmd (args : List String) : Option String := do
     some (" | ".intercalate (fs.map (showFactor d)))
   | _ => none
 
+/-- `hammpo.updseq typ d N U sites₁;sites₂;… noise₁;noise₂;…` — `make_H` followed by the given
+`update_H` calls applied IN SEQUENCE to the same factor list (`updateH` folded, nothing rebuilt);
+prints the factors after the last one. `sites`/`noise` as in `hammpo.factors` (`-` = all zero). -/
+def updSeqCmd (args : List String) : Option String := do
+  match args with
+  | [typ, d, n, us, sitesL, noiseL] =>
+    let d ← d.toNat?
+    let n ← n.toNat?
+    let us ← parseList parseQ us
+    if us.length ≠ n * n then none
+    let U : Nat → Nat → Rat := fun i j => if i < n ∧ j < n then us.getD (i * n + j) 0 else 0
+    let sitesL ← (sitesL.splitOn ";").mapM (parseList parseQ)
+    let noiseL ← (noiseL.splitOn ";").mapM (parseList parseQ)
+    if sitesL.length ≠ noiseL.length then none
+    let h0 : Nat → LMat d := fun _ => 0
+    let P ← if typ = "ryd" then some (rydParams d n U h0)
+             else if typ = "xy" then some (xyParams d n U h0) else none
+    let hs : List (Nat → LMat d) := (sitesL.zip noiseL).map fun (sites, noise) =>
+      fun k => LMat.singleTerm (sites.getD (6 * k) 0, sites.getD (6 * k + 1) 0)
+        (sites.getD (6 * k + 2) 0, sites.getD (6 * k + 3) 0)
+        (sites.getD (6 * k + 4) 0, sites.getD (6 * k + 5) 0) (matOfList d noise)
+    let fs := hs.foldl updateH (factors P)
+    some (" | ".intercalate (fs.map (showFactor d)))
+  | _ => none
+
 def handlers : List (String × (List String → Option String)) :=
-  [("hammpo.factors", factorsCmd)]
+  [("hammpo.factors", factorsCmd), ("hammpo.updseq", updSeqCmd)]
 
 end EmuVerif.Drv.HamMPO
